@@ -162,6 +162,7 @@ class Engine:
         self.obligations = []
         self.float_mode = "real"
         self.float_strict = False
+        self.concrete = False
         self.const_overrides = {}
         self.ext_base_methods = {}
         self.modattrs = {}
@@ -560,6 +561,22 @@ class Engine:
     def s_While(self, s, fr):
         spec = self.loop_spec(fr, s)
         if spec is None:
+            if self.concrete:
+                # concrete mode (CPython cross-check): the condition is a concrete bool, just run the loop
+                for _ in range(100000):
+                    c = self.truth(self.eval(s.test, fr))
+                    if not isinstance(c, bool):
+                        raise Unsupported("symbolic loop condition in concrete mode")
+                    if not c:
+                        self.exec_block(s.orelse, fr)
+                        return
+                    try:
+                        self.exec_block(s.body, fr)
+                    except _Continue:
+                        continue
+                    except _Break:
+                        return
+                raise Unsupported("concrete loop did not terminate")
             raise Unsupported("loop without invariant at %s:%d" % (fr.file, s.lineno))
         spec.run_while(self, s, fr)
 
@@ -576,7 +593,18 @@ class Engine:
                     return
             self.exec_block(s.orelse, fr)
             return
-        it = self.eval(s.iter, fr)
+        it = self.force(self.eval(s.iter, fr))
+        if self.concrete and isinstance(it, GenVal) and it.kind == "enumerate":
+            src = self.force(it.src)
+            items0 = list(src) if isinstance(src, (tuple, list, str)) else list(src.items)
+            it = [(it.start + i, x) for i, x in enumerate(items0)]
+        if self.concrete and isinstance(it, GenVal) and it.kind == "map":
+            srcs = self.iter_concrete(self.force(it.src))
+            outs = []
+            for x in srcs:
+                self.assign(it.target, x, it.frame)
+                outs.append(self.eval(it.elt, it.frame))
+            it = outs
         if isinstance(it, (tuple, list)) or (isinstance(it, Seq) and it.items is not None):
             items = it if isinstance(it, (tuple, list)) else it.items
             for el in items:
@@ -1508,10 +1536,20 @@ class Engine:
         if q in self.contracts:
             self.used_contracts.add(q)
             return self.contracts[q](self, fi, self_val, args, kwargs)
-        if q in self.inline:
+        if q in self.inline or self.concrete:
             self.used_inline.add(q)
             if fi.is_generator:
-                raise Unsupported("inline generator " + q)
+                if not self.concrete:
+                    raise Unsupported("inline generator " + q)
+                # concrete mode: run the generator body eagerly, collecting what it yields
+                out = []
+                old_hook = self.yield_hook
+                self.yield_hook = lambda e, v, f_, n_: out.append(v)
+                try:
+                    self.run_function(fi, args, kwargs, self_val)
+                finally:
+                    self.yield_hook = old_hook
+                return seq_lit("list", out, new_aid())
             return self.run_function(fi, args, kwargs, self_val)
         raise Unsupported("call to %s: no contract and not declared inline" % q)
 
@@ -1801,6 +1839,12 @@ class Engine:
         h = self.st.ghost.get("gen_to_list")
         if h is not None:
             return h(self, g)
+        if self.concrete and isinstance(g, GenVal) and g.kind == "map":
+            outs = []
+            for x in self.iter_concrete(self.force(g.src)):
+                self.assign(g.target, x, g.frame)
+                outs.append(self.eval(g.elt, g.frame))
+            return seq_lit("list", outs, new_aid())
         raise Unsupported("list() of a generator without a contract")
 
     def b_next(self, args, kwargs, node, fr):
@@ -1882,7 +1926,7 @@ class Engine:
                 if h is not None:
                     return h(self, obj, args, kwargs)
                 return Opq(tag="str")
-            if name in ("lower", "upper", "strip") and not args:
+            if name in ("lower", "upper", "strip", "isupper", "islower", "isdigit") and not args:
                 return getattr(obj, name)()
             if name == "replace" and all(isinstance(a, str) for a in args):
                 return obj.replace(*args)
